@@ -497,6 +497,7 @@ type agg struct {
 }
 
 type foundViolation struct {
+	alts []int64 // further seeds that showed the same class and signature
 	v      Violation
 	seed   int64
 	replay string
@@ -567,6 +568,9 @@ func (a *agg) add(prop string, known []Known, l resultLine, maxSamples int) {
 			a.violations[key] = fv
 		}
 		fv.count++
+		if len(fv.alts) < 4 && l.Spec.Seed != fv.seed {
+			fv.alts = append(fv.alts, l.Spec.Seed)
+		}
 		if fv.replay == "" && l.ReplayPath != "" {
 			fv.replay = l.ReplayPath
 			fv.seed = l.Spec.Seed
@@ -796,6 +800,28 @@ func check(id, tier string, verbose bool) int {
 			fv.replay = p
 		}
 		ok, why := replayOnce(dir, pc, fv.replay, scratch)
+		// a run may have been influenced by state an earlier run left in the worker process (only possible when
+		// fabio itself keeps process-wide state): try the other seeds that showed the same violation by themselves
+		for _, alt := range fv.alts {
+			if ok {
+				break
+			}
+			if alt == fv.seed {
+				continue
+			}
+			hn := partOfSeed(alt).Harness
+			p := filepath.Join(replayDir, fmt.Sprintf("%s-%s-%d.json", id, hn, alt))
+			rf := map[string]any{"property": id, "spec": map[string]any{"prop": id, "harness": hn, "tier": tier, "seed": alt, "params": pc.Params},
+				"expect": fv.v, "shrunk": false}
+			b, _ := json.MarshalIndent(rf, "", " ")
+			os.WriteFile(p, b, 0o644)
+			if ok2, _ := replayOnce(dir, pc, p, scratch); ok2 {
+				ok = true
+				fv.replay, fv.seed = p, alt
+			} else {
+				os.Remove(p)
+			}
+		}
 		if ok {
 			conf = append(conf, confirmed{fv, fv.replay})
 		} else {
